@@ -254,17 +254,16 @@ def contracts(repo):
                                                              bytes_is(fld(eng, st, parsed(st, "pvd_header"), "m_Sig"), b"WithouFreSpacExt")))], clsname="HDS"))
     # VMDK sparse extent header (technote: "KDMV"; COWD; SE-sparse 0xCAFEBABE little endian)
     def sparse_accept(eng, st, rv):
-        fsz, at = eng.model.file("fh")
-        p0 = st.ghost.get("magic_pos")
         names = [n for n, _p in st.ghost.get("parsed", ())]
         if len(names) != 1:
             raise Unsupported(f"expected exactly one header structure to be parsed, got {names}")
-        pos0 = z3.Int("pos0_fh")
-        mg = lambda b: z3.And(*[at(pos0 + i) == b[i] for i in range(4)])  # noqa: E731
+        magic = st.env.get("magic")
+        if not isinstance(magic, BytesV):
+            raise Unsupported("the magic bytes read from the file are not available as `magic`")
         kind = {"VMDKSparseExtentHeader": b"KDMV", "COWDSparseExtentHeader": b"COWD", "VMDKSESparseConstHeader": bytes.fromhex("bebafeca")}.get(names[0])
         if kind is None:
             return [("known_header_kind", z3.BoolVal(False))]
-        return [("magic_selects_the_header_layout", mg(kind))]
+        return [("magic_selects_the_header_layout", bytes_is(magic, kind))]
 
     def sparse_model(m):
         m.hyps.append(z3.Int("pos0_fh") >= 0)
@@ -359,10 +358,57 @@ def contracts(repo):
     return out
 
 
-replay = None
-
-
 def trusted(pid):
     return ["frame assumption of gate mode: unknown library calls and over-approximated loops do not modify the parsed header fields that the accept predicate reads",
             "A3 dissect.cstruct: a structure parse yields one value per field within the field's machine range (layout computed from the repository's definitions)",
             "accept sets are taken from the specifications (VDICore.h, ploop1_image.h, VMDK technote / QEMU vmdk.c, MS-VHDX, qcow2.txt, VmDataStore constants)"]
+
+
+def _run_corpus(rep):
+    import json
+    import os
+    import subprocess
+
+    from replay.harness import PY, VERIF
+
+    if getattr(rep, "_gate_corpus", None) is None:
+        env = dict(os.environ, PYTHONPATH=f"{rep.repo}:{VERIF}")
+        p = subprocess.run([PY, "-m", "replay.gate_corpus", str(rep.seed)], capture_output=True, text=True, timeout=300, env=env, cwd=VERIF)
+        rep._gate_corpus = json.loads(p.stdout) if p.returncode == 0 else {"error": p.stderr[-400:]}
+    return rep._gate_corpus
+
+
+GATE_OF = {"vdi:VDI.__init__": "vdi.", "hdd:HDS.__init__": "hds.", "vmdk:SparseExtentHeader": "vmdk.", "vhdx:": "vhdx.", "hyperv:": "hyperv.", "qcow2:": "qcow2.",
+           "envelope:Envelope": "envelope.", "envelope:KeyStore": "keystore.", "vmx:": "keysafe.", "hdd:HDD": "hdd."}
+
+
+def replay(rep, ob_name, qs):
+    """a failed gate obligation is replayed with the gate corpus: an input outside the accept set that the real code opens"""
+    res = _run_corpus(rep)
+    if "error" in res:
+        rep.notes.append(f"gate corpus failed to run: {res['error']}")
+        return None
+    pref = next((v for k, v in GATE_OF.items() if ob_name.startswith(k)), None)
+    hit = [f for f in res["failures"] if pref and f["gate"].startswith(pref)]
+    if not hit:
+        return None
+    f = hit[0]
+    return {"found": True, "finding_key": f"gate:{f['gate']}", "text": f"gate {f['gate']}: input with {f['mutation']} was {f['problem']}", "record": {"gate_case": f}}
+
+
+def bounded(rep, pid, known):
+    from pyvc import driver
+
+    res = _run_corpus(rep)
+    if "error" in res:
+        rep.errors.append(f"gate corpus failed to run: {res['error']}")
+        return
+    rep.bounded.append({"block": "c12.gate_corpus", "level": "bounded (mutated valid inputs on the real constructors; NOT counted as proved)", "evaluations": res["evaluations"],
+                        "distinct_nontrivial": res["distinct"], "rule": res["rule"], "failures": res["n_failures"], "per_gate": res["per_gate"]})
+    seen = set()
+    for f in res["failures"]:
+        if f["gate"] in seen:
+            continue
+        seen.add(f["gate"])
+        p = driver.write_replay(pid, f"gate_corpus.{f['gate']}", {"property": pid, **f})
+        rep.violations.append((p, f"gate {f['gate']}: input with {f['mutation']} was {f['problem']}", False))
